@@ -4,6 +4,7 @@
 MODULES = [
     ('src/lib.rs', 'verif_kani_addr', 'addr.rs'),
     ('src/lib.rs', 'verif_kani_endian', 'endian.rs'),
+    ('src/lib.rs', 'verif_kani_stdspec', 'stdspec.rs'),
     ('src/volatile_memory.rs', 'verif_kani_vs', 'vs.rs'),
     ('src/volatile_memory.rs', 'verif_kani_c06', 'c06.rs'),
     ('src/bitmap/backend/atomic_bitmap.rs', 'verif_kani_c08', 'c08.rs'),
